@@ -178,4 +178,80 @@ class BuildOrder(Harness):
         return cl
 
 
-HARNESSES = [Lookup(), BuildOrder()]
+class GenesAfterRegions(Harness):
+    """several regions (the bisection in _link_cds_to_parent only matters with more than one): genes added before or after them"""
+    pid, name = "C08", "genes_after_regions"
+    functions = [R + "add_cds_feature", R + "_link_cds_to_parent", R + "add_subregion", R + "create_regions", R + "add_region",
+                 "antismash.common.secmet.features.region.structures:Region.add_cds",
+                 "antismash.common.secmet.features.feature:Feature.__lt__"]
+    bound = ("K = 2 (quick) / 3 (thorough) subregions with symbolic coordinates (disjoint, touching, overlapping or nested: 1..K regions), "
+             "G = 2 genes with symbolic coordinates (incl. exactly at a region's start or end, equal to a region, between regions), "
+             "genes added before the regions exist, after, or one each; linear record")
+    outside = "more regions / genes; circular records (regions never overlap, the bisection is the same code)"
+    task_paths = 300
+
+    def variants(self, tier):
+        out = []
+        for k in ((2,) if tier == "quick" else (2, 3)):
+            for order in ("after", "before", "mixed"):
+                out.append({"k": k, "order": order})
+        return out
+
+    def vars(self, var):
+        d = {"n": "int"}
+        for i in range(2):
+            d.update(shape_vars("g%d" % i, "s"))
+        for i in range(var["k"]):
+            d.update(shape_vars("r%d" % i, "s"))
+        return d
+
+    def pre(self, var, v):
+        n = v["n"]
+        return L.And([shape_pre("g%d" % i, "s", v, n) for i in range(2)], [shape_pre("r%d" % i, "s", v, n) for i in range(var["k"])],
+                     gene_order_pre(["s", "s"], v),
+                     [v["r%ds0" % i] <= v["r%ds0" % (i + 1)] for i in range(var["k"] - 1)])     # symmetry: supplied by start
+
+    def run(self, var, v):
+        rec = mkrecord(v["n"], False)
+        genes = [DummyCDS(location=build("g%d" % i, "s", v), locus_tag="g%d" % i, translation="A") for i in range(2)]
+        early = {"after": [], "before": [0, 1], "mixed": [0]}[var["order"]]
+        for i in early:
+            rec.add_cds_feature(genes[i])
+        for i in range(var["k"]):
+            rec.add_subregion(SubRegion(build("r%d" % i, "s", v), tool="test", label="s%d" % i))
+        rec.create_regions()
+        for i in range(2):
+            if i not in early:
+                rec.add_cds_feature(genes[i])
+        regions = list(rec.get_regions())
+        return {"regions": [canon_loc(r.location) for r in regions],
+                "region_genes": [[genes.index(c) for c in r.cds_children] for r in regions],
+                "gene_region": [(regions.index(g.region) if g.region is not None else -1) for g in genes]}
+
+    def post(self, var, v, out):
+        if is_raised(out):
+            return [("no_raise", False)]
+        cl = []
+        for i in range(2):
+            g = model_parts("g%d" % i, "s", v)
+            inside_any = []
+            for j, loc in enumerate(out["regions"]):
+                inside = contains_parts([(p[0], p[1]) for p in loc], g)
+                inside_any.append(inside)
+                cl.append(("gene_points_to_the_region_containing_it", L.Iff(out["gene_region"][i] == j, inside)))
+                cl.append(("region_lists_exactly_contained_genes", L.Iff(i in out["region_genes"][j], inside)))
+            cl.append(("gene_points_to_the_region_containing_it", L.Iff(out["gene_region"][i] == -1, L.Not(L.Or(inside_any)))))
+        for lst in out["region_genes"]:
+            cl.append(("no_duplicates", len(set(lst)) == len(lst)))
+        return cl
+
+    def klass(self, var, out):
+        if is_raised(out):
+            return "raised:" + out.etype
+        return "regions:%d" % len(out["regions"])
+
+    def expected_classes(self, var):
+        return {"regions:%d" % j for j in range(1, var["k"] + 1)}
+
+
+HARNESSES = [Lookup(), BuildOrder(), GenesAfterRegions()]
